@@ -1173,6 +1173,23 @@ def gen_template(r: Any, *, shopify: bool) -> str:
     return "".join(gen_node(r, 2, shopify=shopify) for _ in range(r.choice([1, 2, 3, 4, 5])))
 
 
+# Resource limits keep generated loops and outputs small; a limit error is an
+# outcome like any other (same class on both sides). Module level: templates
+# are pickled together with their environment.
+from liquid2 import Environment as _Environment  # noqa: E402
+from liquid2.shopify import Environment as _ShopifyEnvironment  # noqa: E402
+
+
+class LimitedEnv(_Environment):
+    loop_iteration_limit = 2000
+    output_stream_limit = 100_000
+
+
+class LimitedShopifyEnv(_ShopifyEnvironment):
+    loop_iteration_limit = 2000
+    output_stream_limit = 100_000
+
+
 class Obj:
     """A plain object with attributes (templates must not see them)."""
 
@@ -1210,21 +1227,9 @@ def render_outcome(t: Any, data: dict[str, Any]) -> str:
 
 def tag_envs() -> dict[bool, Any]:
     if "tag" not in _ENV:
-        from liquid2 import DictLoader, Environment
-        from liquid2.shopify import Environment as ShopifyEnvironment
-
-        # Resource limits keep generated loops and outputs small; a limit error
-        # is an outcome like any other (same class on both sides).
-        class Env(Environment):
-            loop_iteration_limit = 2000
-            output_stream_limit = 100_000
-
-        class ShopifyEnv(ShopifyEnvironment):
-            loop_iteration_limit = 2000
-            output_stream_limit = 100_000
-
-        _ENV["tag"] = {False: Env(loader=DictLoader(dict(PARTIALS))),
-                       True: ShopifyEnv(loader=DictLoader(dict(PARTIALS)))}
+        from liquid2 import DictLoader
+        _ENV["tag"] = {False: LimitedEnv(loader=DictLoader(dict(PARTIALS))),
+                       True: LimitedShopifyEnv(loader=DictLoader(dict(PARTIALS)))}
     return _ENV["tag"]
 
 
